@@ -174,11 +174,17 @@ def cg_cases(draw):
 
 @st.composite
 def cbldm_cases(draw):
-    profile, values = draw(S.values_lists(2, 10, numbins=2, profiles=["tiny", "small", "small", "medium", "two-valued", "one-dominant",
-                                                                      "planted", "skewed", "skewed"]))
+    spread = draw(st.integers(0, 1)) == 0
+    if spread:
+        # 11-12 evenly spread items: long enough for the first leaf of the search to be clearly worse than a good partition
+        n = draw(st.integers(11, 12))
+        profile, values = "spread-" + str(n), S.splitmix(draw(st.integers(0, 2 ** 40)), n, 1, draw(st.sampled_from([1000, 1000, 10 ** 5])))
+    else:
+        profile, values = draw(S.values_lists(2, 10, numbins=2, profiles=["tiny", "small", "small", "medium", "two-valued", "one-dominant",
+                                                                          "planted", "skewed", "skewed"]))
     case = {"alg": "cbldm", "values": values, "numbins": 2, "pres": draw(st.sampled_from(["list", "list", "dict-str", "dict-int", "names-array"])),
             "nseed": draw(st.integers(0, 5)), "profile": profile, "cutseed": draw(st.integers(0, 2 ** 30))}
-    pd = draw(st.sampled_from([None, None, 1, 1, 2, 3]))
+    pd = draw(st.sampled_from([None, 1, 2, 2, 3] if spread else [None, None, 1, 1, 2, 3]))
     if pd is not None:
         case["opts"] = {"partition_difference": pd}
     return case
@@ -224,7 +230,7 @@ def legs(tier):
             "hypothesis: cbldm called directly on <=10 items with default / 1 / 2 / 3 cardinality bound; cut-offs t = 1..T+1; oracle: the "
             "infinite-sum placeholder or a complete valid 2-partition obeying the bound; difference non-increasing in t; no limit is "
             "optimal under the bound (DP oracle); same rule",
-            strategy=cbldm_cases(), n_quick=600, n_thorough=5000, valid=valid, floor=0.1, case_timeout=240),
+            strategy=cbldm_cases(), n_quick=800, n_thorough=5000, valid=valid, floor=0.1, case_timeout=240),
         Leg("ckk-generator", evaluate,
             "hypothesis: the complete Karmarkar-Karp generator on <=10 items, 2-5 bins: every yielded partition is valid (snapshotted "
             "when yielded), differences strictly decreasing, the last one optimal; non-trivial = >= 2 yields",
